@@ -175,23 +175,30 @@ func c11Sibling(p *chk.Prog, r *chk.Report) {
 	dels := ug.FindPat("delete(RECV.allocated, S)", chk.H("S", usvc))
 	x.Check("Unassign:forgets-allocation", un.Pos(), len(dels) == 1 && !ug.MustPass(chk.Site{}, func(n ast.Node) bool { return n == ast.Node(rs.X) }, false, func(n ast.Node) bool { return n == dels[0].Top }).Found, "", "Unassign does not delete the allocation record before releasing its addresses")
 
-	z := r.Rule("ZERO-DELETE", "B path", "in Unassign, for each map whose len() is read by updatePoolStats (poolIPsInUse, poolIPV4InUse, poolIPV6InUse), every iteration of the address loop passes the test `m[pool][ip] == 0` whose true branch always deletes the entry, after the decrement", 3)
+	z := r.Rule("ZERO-DELETE", "B path", "in Unassign, for each map whose len() is read by updatePoolStats (poolIPsInUse, poolIPV4InUse, poolIPV6InUse), every decrement of an entry is followed on every path, before the iteration or the function ends, by the test `m[pool][ip] == 0` whose true branch always deletes the entry", 3)
 	for _, m := range []string{"poolIPsInUse", "poolIPV4InUse", "poolIPV6InUse"} {
 		zero := ug.GPat(true, "RECV."+m+"[AL.pool][IP.String()] == 0", chk.H("IP", ip), chk.H("AL", ual))
 		es := ug.EdgesImplying(zero)
-		ok := len(es) == 1
-		if ok {
-			w := ug.BranchAlways(es[0], un.ContainsPat("delete(RECV."+m+"[AL.pool], IP.String())", chk.H("IP", ip), chk.H("AL", ual)))
-			ok = !w.Found
-			cond := es[0].B.Nodes[len(es[0].B.Nodes)-1]
-			ok = ok && !loopSkipsWithout(ug, rs, func(n ast.Node) bool { return n == cond }, chk.NoGuard)
-			// after the decrements
-			for _, s := range ug.Find(isIncDec(un, "RECV."+m+"[AL.pool][IP.String()]", token.DEC)) {
-				if (&chk.Walk{G: ug, From: chk.Site{G: ug, B: es[0].B, I: len(es[0].B.Nodes) - 1}, Inclusive: true,
-					Hit: func(n ast.Node) bool { return n == s.Top },
-					Cut: func(b *cfgBlock, k int) bool { lb, _, _ := ug.RangeBlocks(rs); return b == lb }}).Run().Found {
-					ok = false
-				}
+		ok := len(es) >= 1
+		conds := map[ast.Node]bool{}
+		for _, e := range es {
+			// the zero branch always deletes the entry
+			if ug.BranchAlways(e, un.ContainsPat("delete(RECV."+m+"[AL.pool], IP.String())", chk.H("IP", ip), chk.H("AL", ual))).Found {
+				ok = false
+			}
+			conds[e.B.Nodes[len(e.B.Nodes)-1]] = true
+		}
+		// after every decrement of this map, the iteration (or the function) cannot end without that test: a map
+		// that this address was never counted in (the other family's) needs no test
+		decs := ug.Find(isIncDec(un, "RECV."+m+"[AL.pool][IP.String()]", token.DEC, chk.H("IP", ip), chk.H("AL", ual)))
+		if len(decs) == 0 {
+			ok = false
+		}
+		for _, s := range decs {
+			w := ug.MustPass(s, func(n ast.Node) bool { return n == ast.Node(rs.Key) || n == ast.Node(rs.Value) || n == ast.Node(rs.X) }, true,
+				func(n ast.Node) bool { return conds[n] })
+			if w.Found {
+				ok = false
 			}
 		}
 		z.Check("Unassign:"+m, rs.Pos(), ok, "", "an entry of "+m+" that dropped to zero users is not deleted on every path: len() over-counts the addresses in use")
